@@ -1,0 +1,12 @@
+//go:build verif
+
+package vals
+
+// Verification harnesses for gvc (/verif). They are compiled only with the
+// build tag "verif" and are never called; each exposes a relation between two
+// calls of real functions as the postcondition of one function.
+
+// verifEqHash: Equal(x, y) implies Hash(x) == Hash(y) (property C08).
+func verifEqHash(x, y any) (eq bool, hx, hy uint32) {
+	return Equal(x, y), Hash(x), Hash(y)
+}
